@@ -28,12 +28,15 @@
 (*  TruncNow      pinned code: absolute-epoch retry-after is turned into a     *)
 (*                time-to-live with the clock truncated to whole seconds       *)
 (*  NoExpiryTest  (non-vacuity) Get relies on the sleeper only                 *)
+(*  RefusalLeak   (non-vacuity) an overwrite refused under the lock has        *)
+(*                already given back the replaced entry's size and does not    *)
+(*                restore it although the entry stays                          *)
 (*  Sync          operations are atomic (sequential driver): used to generate  *)
 (*                behaviours with a deterministic outcome for replay           *)
 EXTENDS Integers, FiniteSets, Sequences, TLC
 
 CONSTANTS Key, Typ, Ttl, MaxSize, Relevant, Sts, Hdrs, Szs, NVal, Writers, Steps, MaxNow, PerSec,
-          KF_UnlockedSizeCheck, TruncNow, NoExpiryTest, Sync,
+          KF_UnlockedSizeCheck, TruncNow, NoExpiryTest, RefusalLeak, Sync,
           OneGate,     \* explore only the schedules the single yield point of the real code can force: nothing is
                        \* written between the has test and the size test of a writer (counterexample extraction)
           KeepHist     \* record the step history (generation, counterexample schedules); FALSE in trace validation
@@ -157,7 +160,8 @@ WInsert(w) ==
            repaired == ~KF_UnlockedSizeCheck
            exp == now + TtlOf(r.hdr) IN
        IF repaired /\ Sized /\ cur - old + r.sz > MaxSize
-       THEN UNCHANGED <<store, cur, sleepers>>
+       THEN /\ cur' = IF RefusalLeak THEN cur - old ELSE cur
+            /\ UNCHANGED <<store, sleepers>>
        ELSE /\ store' = [store EXCEPT ![r.k] = [v |-> r.v, st |-> r.st, born |-> now, exp |-> exp,
                                                  hdr |-> r.hdr, sz |-> r.sz]]
             /\ cur' = IF ~Sized THEN cur ELSE IF repaired THEN cur - old + r.sz ELSE cur + r.sz
